@@ -290,6 +290,60 @@ func runC11(a *args) error {
 			c2.nodes[2].setUnreachable(false)
 			c2.close()
 		}
+		// ---- (2c) both replicas of one partition take writes at the same time: the same fresh id is inserted through
+		// node 1 and through node 2 with different vectors; every entry is applied on both nodes while the other node's
+		// caller is waiting, so an outcome delivered to the wrong waiter shows as two successes or as a success for the
+		// value that was not stored
+		{
+			c3 := newSimCluster([]uint64{1, 2})
+			meta3 := newDatasetMeta(r, 2, pb.Space_Euclidean, [][]uint64{{1, 2}}, 2)
+			if err := c3.createDataset(meta3); err != nil {
+				return err
+			}
+			dsA := c3.nodes[1].datasets[uuid.FromBytesOrNil(meta3.Id)]
+			dsB := c3.nodes[2].datasets[uuid.FromBytesOrNil(meta3.Id)]
+			// warm up: the group has a leader and both nodes can propose
+			for w := 0; w < 3; w++ {
+				ctx, cancel := context.WithTimeout(context.Background(), 3*time.Second)
+				dsA.Insert(ctx, uuidFrom(r), []float32{0, float32(w)}, nil)
+				dsB.Insert(ctx, uuidFrom(r), []float32{1, float32(w)}, nil)
+				cancel()
+			}
+			rounds2 := 20
+			for i := 0; i < rounds2; i++ {
+				id := uuidFrom(r)
+				vA, vB := []float32{10, float32(i)}, []float32{20, float32(i)}
+				var errA, errB error
+				done := make(chan struct{}, 2)
+				go func() {
+					ctx, cancel := context.WithTimeout(context.Background(), 3*time.Second)
+					errA = dsA.Insert(ctx, id, vA, nil)
+					cancel()
+					done <- struct{}{}
+				}()
+				go func() {
+					ctx, cancel := context.WithTimeout(context.Background(), 3*time.Second)
+					errB = dsB.Insert(ctx, id, vB, nil)
+					cancel()
+					done <- struct{}{}
+				}()
+				<-done
+				<-done
+				time.Sleep(5 * time.Millisecond)
+				got, gerr := dsA.VerifIndex(0).Get(id)
+				st.count(fmt.Sprintf("symmetric:okA=%v:okB=%v", errA == nil, errB == nil))
+				in := map[string]interface{}{"replicas": 2, "round": i, "errA": fmt.Sprint(errA), "errB": fmt.Sprint(errB)}
+				switch {
+				case errA == nil && errB == nil:
+					st.ImplFailures = append(st.ImplFailures, implFailure{Case: i, What: "the same fresh id was inserted through both replicas at once and BOTH callers were told success (one of the two entries is refused when applied)", Key: "both-acknowledged", Input: in})
+				case errA == nil && (gerr != nil || len(got) != 2 || got[0] != vA[0]):
+					st.ImplFailures = append(st.ImplFailures, implFailure{Case: i, What: fmt.Sprintf("the caller at node 1 was told success but the stored vector is %v (err %v), not the one it wrote", got, gerr), Key: "acknowledged-not-applied:symmetric", Input: in})
+				case errB == nil && (gerr != nil || len(got) != 2 || got[0] != vB[0]):
+					st.ImplFailures = append(st.ImplFailures, implFailure{Case: i, What: fmt.Sprintf("the caller at node 2 was told success but the stored vector is %v (err %v), not the one it wrote", got, gerr), Key: "acknowledged-not-applied:symmetric", Input: in})
+				}
+			}
+			c3.close()
+		}
 		// ---- (3) batches: exactly the failing ids are reported
 		ds := c.nodes[1].datasets[dsid]
 		for b := 0; b < 12; b++ {
